@@ -29,13 +29,15 @@ Oracle (ULPI 1.1 3.8.2, no luna code), per UTMI packet i and PHY-side packet i a
 
 Op modes 0b01 / 0b11 (non-driving / reserved; nothing meaningful can be transmitted) are exercised in a seventh of the
 packets, but there only the mode-independent part is judged (whichever framing the command byte announces must be delivered
-intact, STP position, tx_ready equivalence), not the choice of framing nor the STP data.  Not judged: `tx_ready` while
+intact, STP position, tx_ready equivalence), not the choice of framing nor the STP data.  In (b) a quarter of the cases have the `rst` pin (start-up delay scaled to 10-60 cycles; the first packet may be requested
+inside it), and a third of the packets have another control input changing 1-6 cycles before tx_valid or inside the packet
+body, so that a register write and the packet share the bus.  Not judged: `tx_ready` while
 `tx_valid` is low, the receive path (C22), the register contents (C24).  In (b) the control inputs are only changed while
 no transmission is pending (the interaction of both is C24's subject).
 """
 from rv.sim import Bench
 from rv.ref.c22_ulpiphy import ULPIPhy, act_receive, act_rxcmds, rxcmd
-from rv.checks.c22 import make_ulpi, ResProxy
+from rv.checks.c22 import make_ulpi, ResProxy, function_control, otg_control, CTL_QUIET
 
 PROPERTY = "C23"
 CASES = {"quick": 320, "thorough": 5000}
@@ -47,7 +49,8 @@ REQUIRED_BINS = ["dut_bare", "dut_translator", "mode_normal", "mode_nopid", "mod
                  "nxt_always", "nxt_throttled", "cmd_latency_0", "cmd_latency_ge_3", "txcmd_aborted_by_dir", "dirnxt_while_txcmd_pending",
                  "rx_activity_right_after_stp", "nxt_high_in_stp_cycle", "nxt_low_in_stp_cycle", "gap_1_cycle", "first_byte_high_nibble_not_complement",
                  "other_bus_user_busy_at_start", "opmode_regwrite_before_tx", "nxt_low_right_after_txcmd",
-                 "opmode_change_on_tx_valid_rise", "back_to_back_alternating_modes"]
+                 "opmode_change_on_tx_valid_rise", "back_to_back_alternating_modes", "with_rst_pin", "tx_requested_before_phy_ready",
+                 "regwrite_started_just_before_tx", "control_change_inside_tx_body"]
 REQUIRED_EVENTS = ["utmi_packets", "phy_packets_compared", "utmi_bytes_accepted", "phy_bytes_consumed", "stp_checked",
                    "accept_cycles_compared", "dir_high_cycles_checked"]
 ASSUMPTIONS = ["in op modes 0b01 and 0b11 the choice PID/NOPID and the STP data are not judged", "UTMI transmitter holds tx_data until tx_ready and drops tx_valid in the cycle after the last accepted byte",
@@ -107,7 +110,9 @@ def _run_case(rng, tier, res):
     from amaranth import Module, Elaboratable, Signal, Mux
     from luna.gateware.interface.ulpi import ULPITransmitTranslator, UTMITranslator
     bare = rng.random() < 0.45
-    ulpi = make_ulpi(False)
+    with_rst = (not bare) and rng.random() < 0.3
+    startup = rng.randint(10, 60) if with_rst else 0
+    ulpi = make_ulpi(with_rst)
     if bare:
         class Harness(Elaboratable):
             def __init__(self):
@@ -131,6 +136,9 @@ def _run_case(rng, tier, res):
     else:
         dut = top = UTMITranslator(ulpi=ulpi, handle_clocking=False)
         res.bin("dut_translator")
+        if with_rst:
+            dut._CYCLES_1_MILLISECONDS = startup      # start-up delay (phy_ready) scaled down
+            res.bin("with_rst_pin")
     b = Bench(top, domain="usb", freq=60e6, max_cycles=40000)
     lat = rng.choice([(0, 0), (0, 0), (0, 2), (1, 4), (3, 8)])
     tx_nxt = rng.choice(["always", "always", ("every", rng.randint(2, 6)), ("random", rng.choice([0.2, 0.5, 0.8])),
@@ -143,7 +151,7 @@ def _run_case(rng, tier, res):
         res.bin("cmd_latency_ge_3")
     b.watch(dut.tx_valid, dut.tx_data, dut.tx_ready, dut.op_mode)
     if not bare:
-        for name in ("xcvr_select", "dp_pulldown", "dm_pulldown"):
+        for name in CTL_QUIET:
             b.watch(getattr(dut, name))
     res.desc = {"dut": "ULPITransmitTranslator" if bare else "UTMITranslator", "cmd_latency": lat, "tx_nxt": tx_nxt, "packets": []}
     res.sig(bare, lat, tx_nxt)
@@ -175,7 +183,7 @@ def _run_case(rng, tier, res):
             b.set(dut.op_mode, op)          # the operating mode changes in the very cycle tx_valid rises
         b.set(dut.tx_valid, 1)
         b.set(dut.tx_data, data[0])
-        budget = 400 + 12 * len(data)
+        budget = 400 + 12 * len(data) + startup
         free = 0
         while True:
             yield
@@ -205,8 +213,12 @@ def _run_case(rng, tier, res):
             b.set(dut.dp_pulldown, 1)
             b.set(dut.dm_pulldown, 1)
         yield
-        for _ in range(rng.randint(3, 8)):
-            yield
+        ctl = dict(CTL_QUIET)
+        if with_rst and rng.random() < 0.6:
+            res.bin("tx_requested_before_phy_ready")      # the first packet is requested inside the start-up delay and has to wait
+        else:
+            for _ in range(rng.randint(3, 8) + startup):
+                yield
         n_pkts = rng.randint(15, 40)
         mode_run = 0
         for p in range(n_pkts):
@@ -224,7 +236,7 @@ def _run_case(rng, tier, res):
                     b.set(dut.op_mode, op)
                     if not bare:
                         res.bin("opmode_regwrite_before_tx")
-                        want = 0x41 | (op << 3)
+                        want = function_control(dict(ctl, op_mode=op))
                         waited = 0
                         yield
                         while phy.regs.get(0x04) != want or phy.link_active:
@@ -271,12 +283,54 @@ def _run_case(rng, tier, res):
                     yield
             for _ in range(pre):
                 yield
+            body_change = None
+            if not bare and rng.random() < 0.3:
+                # another control input (not op_mode) changes close to this packet: the register write and the packet have to share
+                # the bus.  Either 1-6 cycles before tx_valid (the packet waits for the write), or inside the packet body (the
+                # write waits for the STP).  Not between tx_valid and the TXCMD's NXT: that is C24's open finding.
+                name = rng.choice(["term_select", "suspend", "id_pullup", "dp_pulldown", "chrg_vbus", "use_external_vbus_indicator"])
+                if rng.random() < 0.5 or len(data) < 4:
+                    ctl[name] ^= 1
+                    b.set(getattr(dut, name), ctl[name])
+                    res.bin("regwrite_started_just_before_tx")
+                    res.sig("ctl_before", name)
+                    for _ in range(rng.randint(1, 6)):
+                        yield
+                else:
+                    body_change = name
             res.sig(p, nopid, tuple(data))
             if len(res.desc["packets"]) < 6:
                 res.desc["packets"].append({"nopid": nopid, "data": bytes(data[:16]).hex(), "len": len(data)})
+            if body_change:
+                def later(name=body_change, n_sent=len(sent)):
+                    # wait for the first accepted byte of this packet, then change the input inside the body
+                    for _ in range(600):
+                        yield
+                        if len(sent) > n_sent and sent[n_sent]["accepts"]:
+                            break
+                    else:
+                        return
+                    if sent[n_sent]["end"] is None:
+                        ctl[name] ^= 1
+                        b.set(getattr(dut, name), ctl[name])
+                        res.bin("control_change_inside_tx_body")
+                b.add_driver(later(), main=False)
             yield from send(data, nopid, op, set_op=op_on_rise)
             if st.get("dead"):
                 return
+            if not bare:
+                # let a pending register write finish before the next packet is requested (see above)
+                want4 = function_control(dict(ctl, op_mode=op))
+                wantA = otg_control(ctl)
+                waited = 0
+                yield
+                while phy.regs.get(0x04) != want4 or phy.regs.get(0x0A) != wantA or phy.link_active:
+                    yield
+                    waited += 1
+                    if waited > 600:
+                        res.violation("regwrite_around_packet_not_completed", "after packet %d: function control %s (requested %#04x), OTG control %s (requested %#04x)"
+                                      % (p, phy.regs.get(0x04), want4, phy.regs.get(0x0A), wantA))
+                        return
             while bare and rng.random() < 0.35:
                 # back-to-back: tx_valid is low for exactly one cycle (the STP cycle of the previous packet), the next packet is
                 # in the other operating mode and op_mode changes in the cycle tx_valid rises again
